@@ -87,8 +87,11 @@ UpdateEff(hd) ==
 (* counterparty's next revision: a consensus state at block h of revision r with the current time.  The consensus   *)
 (* states already stored stay; the latest height becomes (r, h) whatever it was (governance is trusted with that).  *)
 UpgradeOK == TRUE
+(* the consensus state a proposal carries is older than the block that executes it (voting takes time): by two units  *)
+(* for even block numbers, not at all for odd ones.  The delay for proofs counts from the execution, not from that date. *)
+UpgradeAge(h) == IF h % 2 = 0 /\ now >= 2 THEN 2 ELSE 0
 UpgradeEff(r, h, nx, rt) ==
-  /\ cons' = (r * 100 + h :> [time |-> now, root |-> rt, next |-> nx]) @@ cons
+  /\ cons' = (r * 100 + h :> [time |-> now - UpgradeAge(h), root |-> rt, next |-> nx]) @@ cons
   /\ meta' = (r * 100 + h :> now) @@ meta
   /\ latest' = r * 100 + h /\ UNCHANGED now
 
